@@ -190,7 +190,7 @@ func runC03(t *T) {
 	defer beginTrial(t, true)()
 	fs, st, desc := c03Stack(t, kind)
 	alpha := []string{"a", "b", "c"}
-	if c.Chance(1, 4) && c03Family(kind) != "mount" {
+	if c.Chance(1, 4) && kind != 4 { // (kind 4 mounts at b/c and needs the name c)
 		alpha = [][]string{{"a", "ab", "b"}, {"a", "a.x", "b"}}[c.Draw(2)]
 	}
 	probe := candidatePaths(alpha, 3)
@@ -200,13 +200,33 @@ func runC03(t *T) {
 	snap := takeSnapshot(fs, snapOpts{NoContent: true})
 	g.observe(snap)
 	muts := 0
+	faultsLeft := 0
+	if st != nil && c.Chance(1, 2) {
+		faultsLeft = 1 + c.Draw(3)
+	}
 	for i := 0; i < n; i++ {
 		o := g.next()
 		if c03Avoid(t, kind, o) {
 			continue
 		}
 		sig := opSig(o, snap)
+		// over the simulated store, one call in six runs with a store fault armed: an operation that fails half
+		// way ("successful or failed") still must not leave an entry without a parent
+		var plan *faultPlan
+		if st != nil && faultsLeft > 0 && o.Mutating() && (c.Chance(1, 4) || ((o.Kind == "Rename" || o.Kind == "RemoveAll" || o.Kind == "MkdirAll") && c.Chance(1, 2))) {
+			// (multi-step operations - Rename of a directory, RemoveAll, MkdirAll - are where a half-done state can be left)
+			faultsLeft--
+			plan = &faultPlan{t: t, at: c.Draw(8), kind: []string{"Set", "Get", ""}[c.Weighted(3, 2, 1)], armed: true}
+			st.plan = plan
+		}
 		out := applyOp(fs, o)
+		if st != nil {
+			st.plan = nil
+		}
+		if plan != nil && plan.fired > 0 {
+			sig += ":store-fault=" + strings.Fields(plan.firedAt)[0]
+			t.Stat("c03:operation-hit-by-store-fault")
+		}
 		t.Logf("%d %s -> %s", i, o, errClass(out.Err))
 		if !o.Mutating() {
 			continue
